@@ -11,7 +11,7 @@ from ..run import hyp_search, mix
 
 RULE = ('element trees (depth<=3) built through the API from oracle-valid child words: attributes supplied by '
         'constructor keyword, by later dot assignment, overwritten and removed (=None) after construction; values '
-        'changed after construction; mixed xsd_check per node; also trees obtained from parse_musicxml.  Oracle: '
+        'changed after construction; mixed xsd_check per node, unchecked nodes (of any type, also types without a content model) holding arbitrary extra children; also trees obtained from parse_musicxml.  Oracle: '
         'deepcopy(e).to_string()==e.to_string() (or both raise the same type with the same message); a recursive '
         'public-API dump (class, attributes, value, xsd_check, ordered children) of e is identical before and after '
         'copying and equals the copy\'s; then a drawn mutation (attribute set / removed, value set, child added / '
@@ -27,6 +27,7 @@ EXHAUSTIVE = False
 EXCLUDED_TYPES = {'credit', 'direction-type', 'harmony', 'key', 'lyric', 'metronome', 'ornaments', 'part-list',
                   'score-part', 'sound', 'part-link'}
 BROKEN_ATTR = {'xml:space', 'name'}
+JUNK_KIDS = ['staff', 'dot', 'words', 'pitch', 'chord', 'duration']
 
 
 def usable_attrs(tkey):
@@ -89,6 +90,10 @@ def draw_plan(data, el, depth):
                 plan['order'] = list(data.draw(st.permutations(list(range(n)))))
         elif n >= 1 and z in (1, 2, 3):
             plan['readd'] = [data.draw(st.integers(0, n - 1)) for _ in range(data.draw(st.integers(1, 2)))]
+    if not plan['checked'] and data.draw(st.integers(0, 2)) == 0:
+        # an unchecked element takes any child, whether or not its type has a content model at all
+        for i in range(data.draw(st.integers(1, 2))):
+            plan['kids'].append({'element': data.draw(st.sampled_from(JUNK_KIDS)), 'stub': True, 'v': 90 + i})
     return plan
 
 
